@@ -79,6 +79,10 @@ Refresh(s, confs) ==
     [s EXCEPT !.coins = {IF c.conf > 0 /\ \E i \in 1..Len(confs) : confs[i].t = c.t
                          THEN [c EXCEPT !.conf = confs[CHOOSE i \in 1..Len(confs) : confs[i].t = c.t].conf] ELSE c : c \in @}]
 
+\* another wallet holding the same keys in the same database broadcasts a transaction: the outputs it spends are spent for
+\* this wallet too, but the transaction is not one this wallet stores (a later full report may list them again)
+MarkSpent(s, outpoints) == [s EXCEPT !.coins = {IF <<c.t, c.n>> \in outpoints THEN [c EXCEPT !.spent = TRUE] ELSE c : c \in @}]
+
 \* ---- creating a transaction.  q: the request, x: the transaction returned
 \* q = [recips: Seq([id, v]), fee (explicit, or -1), minconf, inkeys (set of key ids, {} = any), sweep: BOOLEAN,
 \*      feemin, feemax, nexplicit, explicit (set of <<t, n>>), above, acct]
